@@ -125,6 +125,7 @@ func checkC13(w *World, r *Report) {
 	r.Explanation = "Decides the clause 'the dash is accepted on every tag boundary and never changes whether a template parses' as a pairing-completeness rule: (R13.1) in every parser-side function, every comparison / switch case / kind predicate that tests one of TOKEN_{BLOCK,VAR}_{START,END} tests its *_TRIM partner on the same operand with the same polarity, so no handler can accept a tag delimiter and reject its dashed form; (R13.2) Parse runs the whitespace-control pass on every tokenisation path before parsing, the trim cut set is exactly space/tab/CR/LF, and the pass pairs START_TRIM with the preceding and END_TRIM with the following text token; (R13.3) every tokenizer that emits START kinds can emit both END kinds after either START kind. Trim decisions are local: every condition controlling a trim reads only tokens[i±c], the index and constants (no loop-carried state). Not decided: output equality with the hand-trimmed template (value-level)."
 	r.Explanation += " Rules added in later rounds: (R13.2) trim locality through helpers and pass wrappers; (R13.4) the pass rewrites the tokens the parser reads. (R13.5) token kinds are only compared for equality; (R13.6) bit sets of kinds are wide enough for every constant that reaches them."
 	r.Explanation += " Round 11: (R13.7) arms for a delimiter kind and its trimming twin advance the cursor alike."
+	r.Explanation += " Round 12/13: (R13.8) only the tokenizer finds tags; (R13.9) tables indexed by a token kind cover all kinds."
 	r.RuleText = "obligation = one kind comparison / case list / predicate / call site; non-trivial = comparisons and case lists that mention a pairable kind (each needs its partner located in the enclosing boolean expression)"
 	r.Trusted = []string{"go/types constant resolution", "strings.TrimLeft/TrimRight semantics (stdlib)"}
 
